@@ -419,7 +419,9 @@ def corpus():
 
 
 # ---------------------------------------------------------------- implementation runner
-class Timeout(Exception):
+class Timeout(BaseException):
+    # a BaseException: glom's `except Exception` clauses (around every child access of a wildcard)
+    # must not be able to swallow the alarm, and the timer repeats in case something does
     pass
 
 
@@ -514,7 +516,7 @@ def run_impl(case):
     out['classes'] = class_info()
     mut = case.get('mut')
     old = signal.signal(signal.SIGALRM, _alarm)
-    signal.setitimer(signal.ITIMER_REAL, 3.0)
+    signal.setitimer(signal.ITIMER_REAL, 3.0, 1.0)
     try:
         try:
             if mut is None:
